@@ -4,6 +4,7 @@ mod numeric;
 mod mk;
 mod deposits;
 mod select;
+mod builder;
 
 fn main() {
     let argv: Vec<String> = std::env::args().collect();
@@ -18,6 +19,7 @@ fn main() {
         "numeric" => numeric::main(&a),
         "deposits" => deposits::main(&a),
         "select" => select::main(&a),
+        "builder" => builder::main(&a),
         d => {
             eprintln!("unknown driver {}", d);
             std::process::exit(2);
